@@ -99,7 +99,10 @@ def gen_wrap_history(rng, nops, kind):
                 ops.append('add ' + arg(rng))
             elif k == 'addstr':
                 e = elem(rng) if rng.random() < 0.3 else bytes(rng.choice(b'abcxyz ') for _ in range(rng.randrange(0, 6)))
-                ops.append('addstr ' + hexs(e))
+                if b'\0' in e or rng.random() < 0.6:
+                    ops.append('addstr ' + hexs(e))
+                else:
+                    ops.append('addstrf ' + (hexs(e) or '-'))
             else:
                 ops.append(k)
         return ops
@@ -215,6 +218,14 @@ def directed_wrap(rng, count):
             zs = [rng.randrange(-2 ** 63, 2 ** 63) for _ in range(k)]
             hs.append((c, ['pushint %d' % z for z in zs] + ['getint'] + ['popint'] * (k + 1)))
         hs.append(('grow', ['addstr ' + hexs(x) for x in ss] + ['tostring', 'toarray', 'size', 'datasize', 'clear', 'tostring', 'addstr 61', 'tostring']))
+        hs.append(('grow', [rng.choice(['addstr ', 'addstrf ']) + hexs(x) for x in ss] + ['tostring', 'size', 'datasize']))
+    # formatted pieces of every length around the sizes at which a formatting buffer has to grow
+    lens = sorted(set(list(range(0, 40)) + [n + d for n in (64, 128, 255, 256, 512, 1023, 1024, 2047, 2048, 4095, 4096) for d in (-2, -1, 0, 1, 2)]))
+    for i in range(0, len(lens), 6):
+        ops = []
+        for n in lens[i:i + 6]:
+            ops += ['addstrf ' + (hexs(bytes(0x61 + (j * 7 + n) % 26 for j in range(n))) or '-'), 'size', 'datasize']
+        hs.append(('grow', ops + ['tostring', 'toarray']))
     return hs
 
 
